@@ -1,7 +1,7 @@
 import typing
 from ast import *
 
-from oneliner.namespaces import Namespace
+from oneliner.namespaces import Namespace, NamespaceFunction
 
 __all__ = [
     "expr_transf",
@@ -212,7 +212,37 @@ class ExpressionTransformer:
         self.pending_stack: list[PendingExprGeneric] = []
         self.nsp = nsp
 
+    def _explicit_super(self, node: expr) -> expr:
+        """
+        Loops are converted to comprehensions, which are nested functions before
+        python 3.12, where the zero-argument super() does not work.
+        Write the arguments explicitly: super(__class__, self)
+        """
+        if not (
+            isinstance(node, Call)
+            and isinstance(node.func, Name)
+            and node.func.id == "super"
+            and len(node.args) == 0
+            and len(node.keywords) == 0
+            and isinstance(self.nsp, NamespaceFunction)
+            and self.nsp.is_method
+            and self.nsp.zero_arg_super_used
+        ):
+            return node
+        parameters = self.nsp.symt.get_parameters()
+        if len(parameters) == 0 or "super" in self.nsp.symt.get_locals():
+            return node
+        return Call(
+            func=node.func,
+            args=[
+                Name(id="__class__", ctx=Load()),
+                Name(id=parameters[0], ctx=Load()),
+            ],
+            keywords=[],
+        )
+
     def get_pending(self, node: expr) -> PendingExprGeneric:
+        node = self._explicit_super(node)
         if isinstance(node, (Yield, YieldFrom, Await)):
             # a lambda can not be a generator or a coroutine
             raise RuntimeError(
